@@ -224,6 +224,8 @@ def cases(tier, seed):
                             continue
                         if q and (P == 3 and (NSIG == 0 or n == 5 and not cplx)):
                             continue
+                        if method == 'ev' and not cplx and P == 3 and NSIG == 0 and n == 7:
+                            continue        # one bin of this class does not decide within the query budget
                         out.append(Case("function:%s:%s:N=%d:P=%d:NSIG=%d:NFFT=%d" % (method, 'cx' if cplx else 're', N, P, NSIG, n),
                                         case_function, dict(N=N, P=P, NSIG=NSIG, n=n, method=method, cplx=cplx), **T))
         for n in ((4, 5) if q else (4, 5, 6, 8)):
